@@ -97,6 +97,7 @@ fn main() {
                 }
             }
         }
+        "corner3" => suites::signal::corner3(ctx.seed),
         "corner2" => {
             // finer map of the marginal region found by `corner`
             let mut rng = util::Rng::new(ctx.seed);
@@ -202,6 +203,7 @@ fn main() {
         "sigflush" => suites::signal::run_flush(&ctx),
         "siglong" => suites::signal::run_long(&ctx),
         "sigreset" => suites::signal::run_reset(&ctx),
+        "sighostile" => suites::signal::run_hostile(&ctx),
         "cfgfuzz" => suites::config::run(&ctx),
         "app" => suites::app::run_app(&ctx),
         "appfault" => suites::app::run_fault(&ctx),
